@@ -8,6 +8,8 @@ import Mathlib.Tactic.Ring
 import Mathlib.Tactic.Linarith
 import Mathlib.Tactic.FieldSimp
 import Mathlib.Algebra.Order.Field.Basic
+import Mathlib.Tactic.Tauto
+import Mathlib.Tactic.IntervalCases
 
 namespace EzdxfVerif.Props.C19
 open EzdxfVerif.Polygon EzdxfVerif.Gen
@@ -940,31 +942,6 @@ theorem encode_zero_iff (w : Win) (p : Pt) : w.encode p.x p.y = 0 ↔ w.contains
   · intro h
     rw [hx.mpr ⟨h.1, h.2.1⟩, hy.mpr ⟨h.2.2.1, h.2.2.2⟩]; rfl
 
-/-- `cs_sound`, accept part: whatever `clip_line` returns lies inside the window (for any fuel, any window, any segment) -/
-theorem cs_accept_inside (w : Win) (fuel : Nat) (p0 p1 q0 q1 : Pt)
-    (h : csClipLine w fuel p0 p1 = .accept q0 q1) : w.contains q0 ∧ w.contains q1 := by
-  unfold csClipLine at h
-  generalize p0.x = x0 at h; generalize p0.y = y0 at h; generalize p1.x = x1 at h; generalize p1.y = y1 at h
-  have : ∀ fuel x0 y0 x1 y1 x y, csLoop w fuel x0 y0 x1 y1 x y = .accept q0 q1 → w.contains q0 ∧ w.contains q1 := by
-    intro fuel
-    induction fuel with
-    | zero => intro _ _ _ _ _ _ h; simp [csLoop] at h
-    | succ n ih =>
-      intro x0 y0 x1 y1 x y h
-      simp only [csLoop] at h
-      split at h
-      · rename_i hacc
-        simp only [CsResult.accept.injEq] at h
-        obtain ⟨rfl, rfl⟩ := h
-        simp only [PolygonKernels.csAccept, Bool.not_eq_true', decide_eq_false_iff_not, ne_eq, not_not,
-          Nat.or_eq_zero_iff] at hacc
-        exact ⟨(encode_zero_iff w ⟨x0, y0⟩).mp hacc.1, (encode_zero_iff w ⟨x1, y1⟩).mp hacc.2⟩
-      · split at h
-        · simp at h
-        · split at h <;> exact ih _ _ _ _ _ _ h
-  exact this fuel x0 y0 x1 y1 x0 y0 h
-
-
 /-- number of window constraints violated by at least one of two coordinates on one axis -/
 private def f (a b : Cls) : Nat := (if a = .hi ∨ b = .hi then 1 else 0) + (if a = .lo ∨ b = .lo then 1 else 0)
 
@@ -1058,8 +1035,17 @@ private theorem ne_hi {a lo hi : Rat} (hlh : lo ≤ hi) (h : clsOf a lo hi ≠ .
 private theorem ne_lo {a lo hi : Rat} (h : clsOf a lo hi ≠ .lo) : lo ≤ a := by
   by_contra hc; exact h (clsOf_lo.mpr (not_le.mp hc))
 
-/-- One iteration that neither accepts nor rejects: the new point is `P0 + s (P1 - P0)` with `0 ≤ s ≤ 1`, and the number
-of window constraints violated by an endpoint strictly decreases. -/
+/-- position classes after one clipping iteration: `bit` is the handled outcode bit, E the replaced end point, O the other
+one, Q the new point -/
+private def StepFacts (bit : Nat) (cxE cyE cxO cyO cxQ cyQ : Cls) : Prop :=
+  (bit = 8 ∧ cyQ = .mid ∧ cyE = .hi ∧ cyO ≠ .hi) ∨ (bit = 4 ∧ cyQ = .mid ∧ cyE = .lo ∧ cyO ≠ .lo) ∨
+  (bit = 2 ∧ cxQ = .mid ∧ cxE = .hi ∧ cxO ≠ .hi) ∨ (bit = 1 ∧ cxQ = .mid ∧ cxE = .lo ∧ cxO ≠ .lo)
+
+/-- a point between two points violates no window constraint that neither of them violates -/
+private def Conv (aQ a0 a1 : Cls) : Prop := (aQ = .hi → a0 = .hi ∨ a1 = .hi) ∧ (aQ = .lo → a0 = .lo ∨ a1 = .lo)
+
+/-- One iteration that neither accepts nor rejects, for outcodes that are not masked: the new point is `P0 + s (P1 - P0)`
+with `0 ≤ s ≤ 1`; it lies on the window edge that was clipped; the other end point does not violate that edge. -/
 private theorem cs_step (w : Win) (hx : w.xmin ≤ w.xmax) (hy : w.ymin ≤ w.ymax) (x0 y0 x1 y1 x y : Rat)
     (hacc : PolygonKernels.csAccept (w.encode x0 y0) (w.encode x1 y1) = false)
     (hrej : PolygonKernels.csReject (w.encode x0 y0) (w.encode x1 y1) = false) :
@@ -1068,13 +1054,18 @@ private theorem cs_step (w : Win) (hx : w.xmin ≤ w.xmax) (hy : w.ymin ≤ w.ym
         w.xmin w.xmax w.ymin w.ymax = x0 + s * (x1 - x0) ∧
       PolygonKernels.csClipY (PolygonKernels.csPick (w.encode x0 y0) (w.encode x1 y1)) x y x0 y0 x1 y1
         w.xmin w.xmax w.ymin w.ymax = y0 + s * (y1 - y0) ∧
+      Conv (clsOf (x0 + s * (x1 - x0)) w.xmin w.xmax) (clsOf x0 w.xmin w.xmax) (clsOf x1 w.xmin w.xmax) ∧
+      Conv (clsOf (y0 + s * (y1 - y0)) w.ymin w.ymax) (clsOf y0 w.ymin w.ymax) (clsOf y1 w.ymin w.ymax) ∧
       (PolygonKernels.csPick (w.encode x0 y0) (w.encode x1 y1) = w.encode x0 y0 →
-        V w (x0 + s * (x1 - x0)) (y0 + s * (y1 - y0)) x1 y1 < V w x0 y0 x1 y1) ∧
+        StepFacts (PolygonKernels.csClipBit (PolygonKernels.csPick (w.encode x0 y0) (w.encode x1 y1)))
+          (clsOf x0 w.xmin w.xmax) (clsOf y0 w.ymin w.ymax) (clsOf x1 w.xmin w.xmax) (clsOf y1 w.ymin w.ymax)
+          (clsOf (x0 + s * (x1 - x0)) w.xmin w.xmax) (clsOf (y0 + s * (y1 - y0)) w.ymin w.ymax)) ∧
       (PolygonKernels.csPick (w.encode x0 y0) (w.encode x1 y1) ≠ w.encode x0 y0 →
-        V w x0 y0 (x0 + s * (x1 - x0)) (y0 + s * (y1 - y0)) < V w x0 y0 x1 y1) := by
+        StepFacts (PolygonKernels.csClipBit (PolygonKernels.csPick (w.encode x0 y0) (w.encode x1 y1)))
+          (clsOf x1 w.xmin w.xmax) (clsOf y1 w.ymin w.ymax) (clsOf x0 w.xmin w.xmax) (clsOf y0 w.ymin w.ymax)
+          (clsOf (x0 + s * (x1 - x0)) w.xmin w.xmax) (clsOf (y0 + s * (y1 - y0)) w.ymin w.ymax)) := by
   rw [encode_eq, encode_eq] at hacc hrej ⊢
   obtain ⟨t0, t1⟩ := step_table _ _ _ _ hacc hrej
-  -- the four clipping sides, parametrised by the clipped axis
   have vertical : ∀ b : Rat, (b = w.ymax ∨ b = w.ymin) → y0 ≠ y1 → ((y0 ≤ b ∧ b ≤ y1) ∨ (y1 ≤ b ∧ b ≤ y0)) →
       ∃ s : Rat, 0 ≤ s ∧ s ≤ 1 ∧ x0 + (x1 - x0) * (b - y0) / (y1 - y0) = x0 + s * (x1 - x0) ∧
         b = y0 + s * (y1 - y0) ∧ clsOf (y0 + s * (y1 - y0)) w.ymin w.ymax = .mid := by
@@ -1099,43 +1090,10 @@ private theorem cs_step (w : Win) (hx : w.xmin ≤ w.xmax) (hy : w.ymin ≤ w.ym
     rcases hb with rfl | rfl
     · exact cls_bound_mid_hi hx
     · exact cls_bound_mid_lo hx
-  -- measure bookkeeping for the two endpoints
-  have decY : ∀ s : Rat, 0 ≤ s → s ≤ 1 → clsOf (y0 + s * (y1 - y0)) w.ymin w.ymax = .mid →
-      ((clsOf y0 w.ymin w.ymax = .hi ∧ clsOf y1 w.ymin w.ymax ≠ .hi) ∨
-        (clsOf y0 w.ymin w.ymax = .lo ∧ clsOf y1 w.ymin w.ymax ≠ .lo)) →
-      V w (x0 + s * (x1 - x0)) (y0 + s * (y1 - y0)) x1 y1 < V w x0 y0 x1 y1 := by
-    intro s h0 h1 hm hv
-    have c := cls_convex x0 x1 s w.xmin w.xmax hx h0 h1
-    have a := f_mono _ _ _ c.1 c.2
-    have b := f_dec _ _ hv
-    simp only [V, hm]; omega
-  have decY' : ∀ s : Rat, 0 ≤ s → s ≤ 1 → clsOf (y0 + s * (y1 - y0)) w.ymin w.ymax = .mid →
-      ((clsOf y1 w.ymin w.ymax = .hi ∧ clsOf y0 w.ymin w.ymax ≠ .hi) ∨
-        (clsOf y1 w.ymin w.ymax = .lo ∧ clsOf y0 w.ymin w.ymax ≠ .lo)) →
-      V w x0 y0 (x0 + s * (x1 - x0)) (y0 + s * (y1 - y0)) < V w x0 y0 x1 y1 := by
-    intro s h0 h1 hm hv
-    have c := cls_convex x0 x1 s w.xmin w.xmax hx h0 h1
-    have a := f_mono _ _ (clsOf x0 w.xmin w.xmax) (fun h => (c.1 h).symm) (fun h => (c.2 h).symm)
-    have b := f_dec _ _ hv
-    simp only [V, hm, f_comm (clsOf x0 w.xmin w.xmax), f_comm (clsOf y0 w.ymin w.ymax)]; omega
-  have decX : ∀ s : Rat, 0 ≤ s → s ≤ 1 → clsOf (x0 + s * (x1 - x0)) w.xmin w.xmax = .mid →
-      ((clsOf x0 w.xmin w.xmax = .hi ∧ clsOf x1 w.xmin w.xmax ≠ .hi) ∨
-        (clsOf x0 w.xmin w.xmax = .lo ∧ clsOf x1 w.xmin w.xmax ≠ .lo)) →
-      V w (x0 + s * (x1 - x0)) (y0 + s * (y1 - y0)) x1 y1 < V w x0 y0 x1 y1 := by
-    intro s h0 h1 hm hv
-    have c := cls_convex y0 y1 s w.ymin w.ymax hy h0 h1
-    have a := f_mono _ _ _ c.1 c.2
-    have b := f_dec _ _ hv
-    simp only [V, hm]; omega
-  have decX' : ∀ s : Rat, 0 ≤ s → s ≤ 1 → clsOf (x0 + s * (x1 - x0)) w.xmin w.xmax = .mid →
-      ((clsOf x1 w.xmin w.xmax = .hi ∧ clsOf x0 w.xmin w.xmax ≠ .hi) ∨
-        (clsOf x1 w.xmin w.xmax = .lo ∧ clsOf x0 w.xmin w.xmax ≠ .lo)) →
-      V w x0 y0 (x0 + s * (x1 - x0)) (y0 + s * (y1 - y0)) < V w x0 y0 x1 y1 := by
-    intro s h0 h1 hm hv
-    have c := cls_convex y0 y1 s w.ymin w.ymax hy h0 h1
-    have a := f_mono _ _ (clsOf y0 w.ymin w.ymax) (fun h => (c.1 h).symm) (fun h => (c.2 h).symm)
-    have b := f_dec _ _ hv
-    simp only [V, hm, f_comm (clsOf x0 w.xmin w.xmax), f_comm (clsOf y0 w.ymin w.ymax)]; omega
+  have conv : ∀ s : Rat, 0 ≤ s → s ≤ 1 →
+      Conv (clsOf (x0 + s * (x1 - x0)) w.xmin w.xmax) (clsOf x0 w.xmin w.xmax) (clsOf x1 w.xmin w.xmax) ∧
+      Conv (clsOf (y0 + s * (y1 - y0)) w.ymin w.ymax) (clsOf y0 w.ymin w.ymax) (clsOf y1 w.ymin w.ymax) :=
+    fun s h0 h1 => ⟨cls_convex x0 x1 s w.xmin w.xmax hx h0 h1, cls_convex y0 y1 s w.ymin w.ymax hy h0 h1⟩
   by_cases hpick : PolygonKernels.csPick (codeOf (clsOf x0 w.xmin w.xmax) (clsOf y0 w.ymin w.ymax))
       (codeOf (clsOf x1 w.xmin w.xmax) (clsOf y1 w.ymin w.ymax)) = codeOf (clsOf x0 w.xmin w.xmax) (clsOf y0 w.ymin w.ymax)
   · rw [hpick]
@@ -1143,33 +1101,43 @@ private theorem cs_step (w : Win) (hx : w.xmin ≤ w.xmax) (hy : w.ymin ≤ w.ym
     · have g0 := (clsOf_hi hy).mp c0
       have g1 := ne_hi hy c1
       obtain ⟨s, h0, h1, ex, ey, hm⟩ := vertical w.ymax (Or.inl rfl) (by intro h; linarith) (Or.inr ⟨g1, g0.le⟩)
-      refine ⟨s, h0, h1, ?_, ?_, fun _ => decY s h0 h1 hm (Or.inl ⟨c0, c1⟩), fun h => absurd rfl h⟩
+      refine ⟨s, h0, h1, ?_, ?_, (conv s h0 h1).1, (conv s h0 h1).2, fun _ => Or.inl ⟨?_, hm, c0, c1⟩, fun h => absurd rfl h⟩
       · simp only [PolygonKernels.csClipX, b8, ne_eq, not_false_eq_true, decide_true, if_true]; exact ex
       · simp only [PolygonKernels.csClipY, b8, ne_eq, not_false_eq_true, decide_true, if_true]; exact ey
+      · simp only [PolygonKernels.csClipBit, b8, ne_eq, not_false_eq_true, decide_true, if_true]
     · have g0 := clsOf_lo.mp c0
       have g1 := ne_lo c1
       obtain ⟨s, h0, h1, ex, ey, hm⟩ := vertical w.ymin (Or.inr rfl) (by intro h; linarith) (Or.inl ⟨g0.le, g1⟩)
-      refine ⟨s, h0, h1, ?_, ?_, fun _ => decY s h0 h1 hm (Or.inr ⟨c0, c1⟩), fun h => absurd rfl h⟩
+      refine ⟨s, h0, h1, ?_, ?_, (conv s h0 h1).1, (conv s h0 h1).2, fun _ => Or.inr (Or.inl ⟨?_, hm, c0, c1⟩),
+        fun h => absurd rfl h⟩
       · simp only [PolygonKernels.csClipX, b8, b4, ne_eq, not_true_eq_false, not_false_eq_true, decide_true, decide_false,
           if_true, Bool.false_eq_true, if_false]; exact ex
       · simp only [PolygonKernels.csClipY, b8, b4, ne_eq, not_true_eq_false, not_false_eq_true, decide_true, decide_false,
           if_true, Bool.false_eq_true, if_false]; exact ey
+      · simp only [PolygonKernels.csClipBit, b8, b4, ne_eq, not_true_eq_false, not_false_eq_true, decide_true, decide_false,
+          if_true, Bool.false_eq_true, if_false]
     · have g0 := (clsOf_hi hx).mp c0
       have g1 := ne_hi hx c1
       obtain ⟨s, h0, h1, ex, ey, hm⟩ := horizontal w.xmax (Or.inl rfl) (by intro h; linarith) (Or.inr ⟨g1, g0.le⟩)
-      refine ⟨s, h0, h1, ?_, ?_, fun _ => decX s h0 h1 hm (Or.inl ⟨c0, c1⟩), fun h => absurd rfl h⟩
+      refine ⟨s, h0, h1, ?_, ?_, (conv s h0 h1).1, (conv s h0 h1).2, fun _ => Or.inr (Or.inr (Or.inl ⟨?_, hm, c0, c1⟩)),
+        fun h => absurd rfl h⟩
       · simp only [PolygonKernels.csClipX, b8, b4, b2, ne_eq, not_true_eq_false, not_false_eq_true, decide_true,
           decide_false, if_true, Bool.false_eq_true, if_false]; exact ex
       · simp only [PolygonKernels.csClipY, b8, b4, b2, ne_eq, not_true_eq_false, not_false_eq_true, decide_true,
           decide_false, if_true, Bool.false_eq_true, if_false]; exact ey
+      · simp only [PolygonKernels.csClipBit, b8, b4, b2, ne_eq, not_true_eq_false, not_false_eq_true, decide_true,
+          decide_false, if_true, Bool.false_eq_true, if_false]
     · have g0 := clsOf_lo.mp c0
       have g1 := ne_lo c1
       obtain ⟨s, h0, h1, ex, ey, hm⟩ := horizontal w.xmin (Or.inr rfl) (by intro h; linarith) (Or.inl ⟨g0.le, g1⟩)
-      refine ⟨s, h0, h1, ?_, ?_, fun _ => decX s h0 h1 hm (Or.inr ⟨c0, c1⟩), fun h => absurd rfl h⟩
+      refine ⟨s, h0, h1, ?_, ?_, (conv s h0 h1).1, (conv s h0 h1).2, fun _ => Or.inr (Or.inr (Or.inr ⟨?_, hm, c0, c1⟩)),
+        fun h => absurd rfl h⟩
       · simp only [PolygonKernels.csClipX, b8, b4, b2, b1, ne_eq, not_true_eq_false, not_false_eq_true, decide_true,
           decide_false, if_true, Bool.false_eq_true, if_false]; exact ex
       · simp only [PolygonKernels.csClipY, b8, b4, b2, b1, ne_eq, not_true_eq_false, not_false_eq_true, decide_true,
           decide_false, if_true, Bool.false_eq_true, if_false]; exact ey
+      · simp only [PolygonKernels.csClipBit, b8, b4, b2, b1, ne_eq, not_true_eq_false, not_false_eq_true, decide_true,
+          decide_false, if_true, Bool.false_eq_true, if_false]
   · obtain ⟨hp1, hcases⟩ := t1 hpick
     rw [hp1]
     rw [hp1] at hpick
@@ -1177,107 +1145,346 @@ private theorem cs_step (w : Win) (hx : w.xmin ≤ w.xmax) (hy : w.ymin ≤ w.ym
     · have g0 := (clsOf_hi hy).mp c0
       have g1 := ne_hi hy c1
       obtain ⟨s, h0, h1, ex, ey, hm⟩ := vertical w.ymax (Or.inl rfl) (by intro h; linarith) (Or.inl ⟨g1, g0.le⟩)
-      refine ⟨s, h0, h1, ?_, ?_, fun h => absurd h hpick, fun _ => decY' s h0 h1 hm (Or.inl ⟨c0, c1⟩)⟩
+      refine ⟨s, h0, h1, ?_, ?_, (conv s h0 h1).1, (conv s h0 h1).2, fun h => absurd h hpick, fun _ => Or.inl ⟨?_, hm, c0, c1⟩⟩
       · simp only [PolygonKernels.csClipX, b8, ne_eq, not_false_eq_true, decide_true, if_true]; exact ex
       · simp only [PolygonKernels.csClipY, b8, ne_eq, not_false_eq_true, decide_true, if_true]; exact ey
+      · simp only [PolygonKernels.csClipBit, b8, ne_eq, not_false_eq_true, decide_true, if_true]
     · have g0 := clsOf_lo.mp c0
       have g1 := ne_lo c1
       obtain ⟨s, h0, h1, ex, ey, hm⟩ := vertical w.ymin (Or.inr rfl) (by intro h; linarith) (Or.inr ⟨g0.le, g1⟩)
-      refine ⟨s, h0, h1, ?_, ?_, fun h => absurd h hpick, fun _ => decY' s h0 h1 hm (Or.inr ⟨c0, c1⟩)⟩
+      refine ⟨s, h0, h1, ?_, ?_, (conv s h0 h1).1, (conv s h0 h1).2, fun h => absurd h hpick,
+        fun _ => Or.inr (Or.inl ⟨?_, hm, c0, c1⟩)⟩
       · simp only [PolygonKernels.csClipX, b8, b4, ne_eq, not_true_eq_false, not_false_eq_true, decide_true, decide_false,
           if_true, Bool.false_eq_true, if_false]; exact ex
       · simp only [PolygonKernels.csClipY, b8, b4, ne_eq, not_true_eq_false, not_false_eq_true, decide_true, decide_false,
           if_true, Bool.false_eq_true, if_false]; exact ey
+      · simp only [PolygonKernels.csClipBit, b8, b4, ne_eq, not_true_eq_false, not_false_eq_true, decide_true, decide_false,
+          if_true, Bool.false_eq_true, if_false]
     · have g0 := (clsOf_hi hx).mp c0
       have g1 := ne_hi hx c1
       obtain ⟨s, h0, h1, ex, ey, hm⟩ := horizontal w.xmax (Or.inl rfl) (by intro h; linarith) (Or.inl ⟨g1, g0.le⟩)
-      refine ⟨s, h0, h1, ?_, ?_, fun h => absurd h hpick, fun _ => decX' s h0 h1 hm (Or.inl ⟨c0, c1⟩)⟩
+      refine ⟨s, h0, h1, ?_, ?_, (conv s h0 h1).1, (conv s h0 h1).2, fun h => absurd h hpick,
+        fun _ => Or.inr (Or.inr (Or.inl ⟨?_, hm, c0, c1⟩))⟩
       · simp only [PolygonKernels.csClipX, b8, b4, b2, ne_eq, not_true_eq_false, not_false_eq_true, decide_true,
           decide_false, if_true, Bool.false_eq_true, if_false]; exact ex
       · simp only [PolygonKernels.csClipY, b8, b4, b2, ne_eq, not_true_eq_false, not_false_eq_true, decide_true,
           decide_false, if_true, Bool.false_eq_true, if_false]; exact ey
+      · simp only [PolygonKernels.csClipBit, b8, b4, b2, ne_eq, not_true_eq_false, not_false_eq_true, decide_true,
+          decide_false, if_true, Bool.false_eq_true, if_false]
     · have g0 := clsOf_lo.mp c0
       have g1 := ne_lo c1
       obtain ⟨s, h0, h1, ex, ey, hm⟩ := horizontal w.xmin (Or.inr rfl) (by intro h; linarith) (Or.inr ⟨g0.le, g1⟩)
-      refine ⟨s, h0, h1, ?_, ?_, fun h => absurd h hpick, fun _ => decX' s h0 h1 hm (Or.inr ⟨c0, c1⟩)⟩
+      refine ⟨s, h0, h1, ?_, ?_, (conv s h0 h1).1, (conv s h0 h1).2, fun h => absurd h hpick,
+        fun _ => Or.inr (Or.inr (Or.inr ⟨?_, hm, c0, c1⟩))⟩
       · simp only [PolygonKernels.csClipX, b8, b4, b2, b1, ne_eq, not_true_eq_false, not_false_eq_true, decide_true,
           decide_false, if_true, Bool.false_eq_true, if_false]; exact ex
       · simp only [PolygonKernels.csClipY, b8, b4, b2, b1, ne_eq, not_true_eq_false, not_false_eq_true, decide_true,
           decide_false, if_true, Bool.false_eq_true, if_false]; exact ey
+      · simp only [PolygonKernels.csClipBit, b8, b4, b2, b1, ne_eq, not_true_eq_false, not_false_eq_true, decide_true,
+          decide_false, if_true, Bool.false_eq_true, if_false]
 
+/-! ### termination for every window and every segment: each iteration handles an outcode bit that is new for its end point -/
 
-private theorem V_le_four (w : Win) (x0 y0 x1 y1 : Rat) : V w x0 y0 x1 y1 ≤ 4 := by
-  have a := f_le_two (clsOf x0 w.xmin w.xmax) (clsOf x1 w.xmin w.xmax)
-  have b := f_le_two (clsOf y0 w.ymin w.ymax) (clsOf y1 w.ymin w.ymax)
-  simp only [V]; omega
+private def pc (d : Nat) : Nat :=
+  (if d &&& 8 ≠ 0 then 1 else 0) + (if d &&& 4 ≠ 0 then 1 else 0) + (if d &&& 2 ≠ 0 then 1 else 0) + (if d &&& 1 ≠ 0 then 1 else 0)
 
-private theorem csLoop_terminates (w : Win) (hx : w.xmin ≤ w.xmax) (hy : w.ymin ≤ w.ymax) (fuel : Nat) :
-    ∀ x0 y0 x1 y1 x y, V w x0 y0 x1 y1 < fuel → csLoop w fuel x0 y0 x1 y1 x y ≠ .fuel := by
+private theorem pc_le (d : Nat) : pc d ≤ 4 := by
+  unfold pc; split_ifs <;> omega
+
+private theorem mask_bit_facts : ∀ e < 16, ∀ d < 16, PolygonKernels.csMask e d ≠ 0 →
+    d ||| PolygonKernels.csClipBit (PolygonKernels.csMask e d) < 16 ∧
+    pc (d ||| PolygonKernels.csClipBit (PolygonKernels.csMask e d)) = pc d + 1 := by decide +kernel
+
+private theorem encode_lt (w : Win) (x y : Rat) : w.encode x y < 16 := by
+  rw [encode_eq]; cases clsOf x w.xmin w.xmax <;> cases clsOf y w.ymin w.ymax <;> decide
+
+private theorem pick_facts (m0 m1 : Nat) (hacc : PolygonKernels.csAccept m0 m1 = false) :
+    (PolygonKernels.csPick m0 m1 = m0 → m0 ≠ 0) ∧
+    (PolygonKernels.csPick m0 m1 ≠ m0 → PolygonKernels.csPick m0 m1 = m1 ∧ m1 ≠ 0) := by
+  simp only [PolygonKernels.csAccept, Bool.not_eq_false', decide_eq_true_eq, ne_eq, Nat.or_eq_zero_iff, not_and] at hacc
+  simp only [PolygonKernels.csPick, decide_eq_true_eq]
+  split_ifs with h
+  · exact ⟨fun e => by omega, fun _ => ⟨rfl, by omega⟩⟩
+  · refine ⟨fun _ h0 => ?_, fun e => absurd rfl e⟩
+    exact hacc h0 (by omega)
+
+private theorem csLoop_terminates_all (w : Win) (fuel : Nat) :
+    ∀ x0 y0 x1 y1 x y d0 d1, d0 < 16 → d1 < 16 → 8 - (pc d0 + pc d1) < fuel →
+      csLoop w fuel x0 y0 x1 y1 x y d0 d1 ≠ .fuel := by
   induction fuel with
-  | zero => intro _ _ _ _ _ _ h; omega
+  | zero => intro _ _ _ _ _ _ _ _ _ _ h; omega
   | succ n ih =>
-    intro x0 y0 x1 y1 x y hV
+    intro x0 y0 x1 y1 x y d0 d1 h0 h1 hM
     simp only [csLoop]
     split
     · simp
     · rename_i hacc
       split
       · simp
-      · rename_i hrej
-        obtain ⟨s, _, _, ex, ey, d0, d1⟩ := cs_step w hx hy x0 y0 x1 y1 x y (by simpa using hacc) (by simpa using hrej)
+      · have pf := pick_facts _ _ (by simpa using hacc)
         split
         · rename_i hp
-          rw [ex, ey]
-          exact ih _ _ _ _ _ _ (by have := d0 hp; omega)
+          have hm := pf.1 hp
+          obtain ⟨hlt, hpc⟩ := mask_bit_facts _ (encode_lt w x0 y0) d0 h0 hm
+          rw [hp]
+          have := pc_le (d0 ||| PolygonKernels.csClipBit (PolygonKernels.csMask (w.encode x0 y0) d0))
+          have := pc_le d1
+          exact ih _ _ _ _ _ _ _ _ hlt h1 (by simp only [PolygonKernels.csDone, hpc] at *; omega)
         · rename_i hp
-          rw [ex, ey]
-          exact ih _ _ _ _ _ _ (by have := d1 hp; omega)
+          obtain ⟨he, hm⟩ := pf.2 hp
+          obtain ⟨hlt, hpc⟩ := mask_bit_facts _ (encode_lt w x1 y1) d1 h1 hm
+          rw [he]
+          have := pc_le (d1 ||| PolygonKernels.csClipBit (PolygonKernels.csMask (w.encode x1 y1) d1))
+          have := pc_le d0
+          exact ih _ _ _ _ _ _ _ _ h0 hlt (by simp only [PolygonKernels.csDone, hpc] at *; omega)
 
-/-- `cs_terminates`: for a proper window (`x_min ≤ x_max`, `y_min ≤ y_max`) the `while True` loop of `clip_line` ends
-after at most four clipping steps in exact arithmetic: fuel 5 is never exhausted. -/
-theorem cs_terminates (w : Win) (hx : w.xmin ≤ w.xmax) (hy : w.ymin ≤ w.ymax) (p0 p1 : Pt) :
-    csClipLine w 5 p0 p1 ≠ .fuel :=
-  csLoop_terminates w hx hy 5 _ _ _ _ _ _ (by have := V_le_four w p0.x p0.y p1.x p1.y; omega)
+/-- `cs_terminates` at full strength, for the code as it is now (already clipped outcode bits are masked per end point):
+for EVERY window (also an improper one) and EVERY segment the loop of `clip_line` ends after at most 8 clipping steps, because
+every step handles an outcode bit that is new for its end point; fuel 9 is never exhausted.  The bound does not depend on the
+arithmetic being exact: it only uses the bookkeeping of `done0`/`done1`. -/
+theorem cs_terminates (w : Win) (p0 p1 : Pt) : csClipLine w 9 p0 p1 ≠ .fuel :=
+  csLoop_terminates_all w 9 _ _ _ _ _ _ 0 0 (by norm_num) (by norm_num) (by decide)
+
+/-! ### proper windows: the masks never change an outcode in exact arithmetic, at most four steps, sound results -/
+
+private def SatAx (thi tlo : Prop) (a0 a1 : Cls) : Prop := (thi → a0 ≠ .hi ∧ a1 ≠ .hi) ∧ (tlo → a0 ≠ .lo ∧ a1 ≠ .lo)
+
+/-- every window constraint whose bit is in `done0 ||| done1` is satisfied by both current end points -/
+private def Sat (D : Nat) (cx0 cy0 cx1 cy1 : Cls) : Prop :=
+  SatAx (D &&& 8 ≠ 0) (D &&& 4 ≠ 0) cy0 cy1 ∧ SatAx (D &&& 2 ≠ 0) (D &&& 1 ≠ 0) cx0 cx1
+
+private theorem bits_sub : ∀ d0 < 16, ∀ d1 < 16, ∀ c ∈ [1, 2, 4, 8],
+    (d0 &&& c ≠ 0 → (d0 ||| d1) &&& c ≠ 0) ∧ (d1 &&& c ≠ 0 → (d0 ||| d1) &&& c ≠ 0) := by decide +kernel
+
+private theorem code_noop : ∀ cx cy : Cls, ∀ d < 16, (d &&& 8 ≠ 0 → cy ≠ .hi) → (d &&& 4 ≠ 0 → cy ≠ .lo) →
+    (d &&& 2 ≠ 0 → cx ≠ .hi) → (d &&& 1 ≠ 0 → cx ≠ .lo) → codeOf cx cy &&& d = 0 := by
+  intro cx cy d hd
+  interval_cases d <;> cases cx <;> cases cy <;> simp [codeOf]
+
+private theorem sat_noop (d0 d1 : Nat) (h0 : d0 < 16) (h1 : d1 < 16) (cx0 cy0 cx1 cy1 : Cls)
+    (h : Sat (d0 ||| d1) cx0 cy0 cx1 cy1) :
+    PolygonKernels.csMask (codeOf cx0 cy0) d0 = codeOf cx0 cy0 ∧ PolygonKernels.csMask (codeOf cx1 cy1) d1 = codeOf cx1 cy1 := by
+  have b := bits_sub d0 h0 d1 h1
+  obtain ⟨⟨y8, y4⟩, ⟨x2, x1⟩⟩ := h
+  have e0 := code_noop cx0 cy0 d0 h0 (fun h => (y8 ((b 8 (by simp)).1 h)).1) (fun h => (y4 ((b 4 (by simp)).1 h)).1)
+    (fun h => (x2 ((b 2 (by simp)).1 h)).1) (fun h => (x1 ((b 1 (by simp)).1 h)).1)
+  have e1 := code_noop cx1 cy1 d1 h1 (fun h => (y8 ((b 8 (by simp)).2 h)).2) (fun h => (y4 ((b 4 (by simp)).2 h)).2)
+    (fun h => (x2 ((b 2 (by simp)).2 h)).2) (fun h => (x1 ((b 1 (by simp)).2 h)).2)
+  simp [PolygonKernels.csMask, e0, e1]
+
+private theorem bits_step : ∀ d0 < 16, ∀ d1 < 16, ∀ b ∈ [1, 2, 4, 8], ∀ c ∈ [1, 2, 4, 8],
+    ((((d0 ||| b) ||| d1) &&& c ≠ 0) ↔ ((d0 ||| d1) &&& c ≠ 0 ∨ c = b)) ∧
+    (((d0 ||| (d1 ||| b)) &&& c ≠ 0) ↔ ((d0 ||| d1) &&& c ≠ 0 ∨ c = b)) ∧ d0 ||| b < 16 := by decide +kernel
+
+private theorem conv_ne {aQ a0 a1 : Cls} (c : Conv aQ a0 a1) :
+    (a0 ≠ .hi ∧ a1 ≠ .hi → aQ ≠ .hi) ∧ (a0 ≠ .lo ∧ a1 ≠ .lo → aQ ≠ .lo) :=
+  ⟨fun h e => (c.1 e).elim h.1 h.2, fun h e => (c.2 e).elim h.1 h.2⟩
+
+private theorem satAx_mono {thi tlo thi' tlo' : Prop} {a0 a1 : Cls} (h : SatAx thi tlo a0 a1) (f1 : thi' → thi)
+    (f2 : tlo' → tlo) : SatAx thi' tlo' a0 a1 := ⟨fun t => h.1 (f1 t), fun t => h.2 (f2 t)⟩
+private theorem satAx_swap {thi tlo : Prop} {a0 a1 : Cls} (h : SatAx thi tlo a0 a1) : SatAx thi tlo a1 a0 :=
+  ⟨fun t => ⟨(h.1 t).2, (h.1 t).1⟩, fun t => ⟨(h.2 t).2, (h.2 t).1⟩⟩
+private theorem conv_swap {aQ a0 a1 : Cls} (k : Conv aQ a0 a1) : Conv aQ a1 a0 :=
+  ⟨fun h => (k.1 h).symm, fun h => (k.2 h).symm⟩
+/-- the clipped axis: the new point sits on the window edge, the other end point does not violate that edge -/
+private theorem ax_clip (thi tlo : Prop) (aE aO aQ : Cls) (hq : aQ = .mid) (h : SatAx thi tlo aE aO) :
+    (aO ≠ .hi → SatAx True tlo aQ aO) ∧ (aO ≠ .lo → SatAx thi True aQ aO) := by
+  subst hq
+  exact ⟨fun hO => ⟨fun _ => ⟨by decide, hO⟩, fun t => ⟨by decide, (h.2 t).2⟩⟩,
+    fun hO => ⟨fun t => ⟨by decide, (h.1 t).2⟩, fun _ => ⟨by decide, hO⟩⟩⟩
+/-- the other axis: the new point lies between the old end points -/
+private theorem ax_keep {thi tlo : Prop} {aE aO aQ : Cls} (k : Conv aQ aE aO) (h : SatAx thi tlo aE aO) :
+    SatAx thi tlo aQ aO :=
+  ⟨fun t => ⟨(conv_ne k).1 (h.1 t), (h.1 t).2⟩, fun t => ⟨(conv_ne k).2 (h.2 t), (h.2 t).2⟩⟩
+
+/-- the invariant survives the replacement of end point 0 -/
+private theorem sat_step0 (d0 d1 : Nat) (h0 : d0 < 16) (h1 : d1 < 16) (bit : Nat) (cx0 cy0 cx1 cy1 cxQ cyQ : Cls)
+    (hs : Sat (d0 ||| d1) cx0 cy0 cx1 cy1) (kx : Conv cxQ cx0 cx1) (ky : Conv cyQ cy0 cy1)
+    (hf : StepFacts bit cx0 cy0 cx1 cy1 cxQ cyQ) :
+    d0 ||| bit < 16 ∧ Sat ((d0 ||| bit) ||| d1) cxQ cyQ cx1 cy1 := by
+  have B := bits_step d0 h0 d1 h1
+  rcases hf with ⟨rfl, hq, hE, hO⟩ | ⟨rfl, hq, hE, hO⟩ | ⟨rfl, hq, hE, hO⟩ | ⟨rfl, hq, hE, hO⟩
+  · have Bb := B 8 (by simp)
+    exact ⟨(Bb 8 (by simp)).2.2, satAx_mono ((ax_clip _ _ cy0 cy1 cyQ hq hs.1).1 hO)
+        (fun t => by first | trivial | exact ((Bb 8 (by simp)).1.mp t).resolve_right (by decide))
+        (fun t => by first | trivial | exact ((Bb 4 (by simp)).1.mp t).resolve_right (by decide)),
+      satAx_mono (ax_keep kx hs.2)
+        (fun t => by first | trivial | exact ((Bb 2 (by simp)).1.mp t).resolve_right (by decide))
+        (fun t => by first | trivial | exact ((Bb 1 (by simp)).1.mp t).resolve_right (by decide))⟩
+  · have Bb := B 4 (by simp)
+    exact ⟨(Bb 8 (by simp)).2.2, satAx_mono ((ax_clip _ _ cy0 cy1 cyQ hq hs.1).2 hO)
+        (fun t => by first | trivial | exact ((Bb 8 (by simp)).1.mp t).resolve_right (by decide))
+        (fun t => by first | trivial | exact ((Bb 4 (by simp)).1.mp t).resolve_right (by decide)),
+      satAx_mono (ax_keep kx hs.2)
+        (fun t => by first | trivial | exact ((Bb 2 (by simp)).1.mp t).resolve_right (by decide))
+        (fun t => by first | trivial | exact ((Bb 1 (by simp)).1.mp t).resolve_right (by decide))⟩
+  · have Bb := B 2 (by simp)
+    exact ⟨(Bb 8 (by simp)).2.2, satAx_mono (ax_keep ky hs.1)
+        (fun t => by first | trivial | exact ((Bb 8 (by simp)).1.mp t).resolve_right (by decide))
+        (fun t => by first | trivial | exact ((Bb 4 (by simp)).1.mp t).resolve_right (by decide)),
+      satAx_mono ((ax_clip _ _ cx0 cx1 cxQ hq hs.2).1 hO)
+        (fun t => by first | trivial | exact ((Bb 2 (by simp)).1.mp t).resolve_right (by decide))
+        (fun t => by first | trivial | exact ((Bb 1 (by simp)).1.mp t).resolve_right (by decide))⟩
+  · have Bb := B 1 (by simp)
+    exact ⟨(Bb 8 (by simp)).2.2, satAx_mono (ax_keep ky hs.1)
+        (fun t => by first | trivial | exact ((Bb 8 (by simp)).1.mp t).resolve_right (by decide))
+        (fun t => by first | trivial | exact ((Bb 4 (by simp)).1.mp t).resolve_right (by decide)),
+      satAx_mono ((ax_clip _ _ cx0 cx1 cxQ hq hs.2).2 hO)
+        (fun t => by first | trivial | exact ((Bb 2 (by simp)).1.mp t).resolve_right (by decide))
+        (fun t => by first | trivial | exact ((Bb 1 (by simp)).1.mp t).resolve_right (by decide))⟩
+
+/-- the invariant survives the replacement of end point 1 -/
+private theorem sat_step1 (d0 d1 : Nat) (h0 : d0 < 16) (h1 : d1 < 16) (bit : Nat) (cx0 cy0 cx1 cy1 cxQ cyQ : Cls)
+    (hs : Sat (d0 ||| d1) cx0 cy0 cx1 cy1) (kx : Conv cxQ cx0 cx1) (ky : Conv cyQ cy0 cy1)
+    (hf : StepFacts bit cx1 cy1 cx0 cy0 cxQ cyQ) :
+    d1 ||| bit < 16 ∧ Sat (d0 ||| (d1 ||| bit)) cx0 cy0 cxQ cyQ := by
+  have B := bits_step d0 h0 d1 h1
+  have B' := bits_step d1 h1 d0 h0
+  rcases hf with ⟨rfl, hq, hE, hO⟩ | ⟨rfl, hq, hE, hO⟩ | ⟨rfl, hq, hE, hO⟩ | ⟨rfl, hq, hE, hO⟩
+  · have Bb := B 8 (by simp)
+    exact ⟨(B' 8 (by simp) 8 (by simp)).2.2, satAx_swap (satAx_mono ((ax_clip _ _ cy1 cy0 cyQ hq (satAx_swap hs.1)).1 hO)
+        (fun t => by first | trivial | exact ((Bb 8 (by simp)).2.1.mp t).resolve_right (by decide))
+        (fun t => by first | trivial | exact ((Bb 4 (by simp)).2.1.mp t).resolve_right (by decide))),
+      satAx_swap (satAx_mono (ax_keep (conv_swap kx) (satAx_swap hs.2))
+        (fun t => by first | trivial | exact ((Bb 2 (by simp)).2.1.mp t).resolve_right (by decide))
+        (fun t => by first | trivial | exact ((Bb 1 (by simp)).2.1.mp t).resolve_right (by decide)))⟩
+  · have Bb := B 4 (by simp)
+    exact ⟨(B' 4 (by simp) 8 (by simp)).2.2, satAx_swap (satAx_mono ((ax_clip _ _ cy1 cy0 cyQ hq (satAx_swap hs.1)).2 hO)
+        (fun t => by first | trivial | exact ((Bb 8 (by simp)).2.1.mp t).resolve_right (by decide))
+        (fun t => by first | trivial | exact ((Bb 4 (by simp)).2.1.mp t).resolve_right (by decide))),
+      satAx_swap (satAx_mono (ax_keep (conv_swap kx) (satAx_swap hs.2))
+        (fun t => by first | trivial | exact ((Bb 2 (by simp)).2.1.mp t).resolve_right (by decide))
+        (fun t => by first | trivial | exact ((Bb 1 (by simp)).2.1.mp t).resolve_right (by decide)))⟩
+  · have Bb := B 2 (by simp)
+    exact ⟨(B' 2 (by simp) 8 (by simp)).2.2, satAx_swap (satAx_mono (ax_keep (conv_swap ky) (satAx_swap hs.1))
+        (fun t => by first | trivial | exact ((Bb 8 (by simp)).2.1.mp t).resolve_right (by decide))
+        (fun t => by first | trivial | exact ((Bb 4 (by simp)).2.1.mp t).resolve_right (by decide))),
+      satAx_swap (satAx_mono ((ax_clip _ _ cx1 cx0 cxQ hq (satAx_swap hs.2)).1 hO)
+        (fun t => by first | trivial | exact ((Bb 2 (by simp)).2.1.mp t).resolve_right (by decide))
+        (fun t => by first | trivial | exact ((Bb 1 (by simp)).2.1.mp t).resolve_right (by decide)))⟩
+  · have Bb := B 1 (by simp)
+    exact ⟨(B' 1 (by simp) 8 (by simp)).2.2, satAx_swap (satAx_mono (ax_keep (conv_swap ky) (satAx_swap hs.1))
+        (fun t => by first | trivial | exact ((Bb 8 (by simp)).2.1.mp t).resolve_right (by decide))
+        (fun t => by first | trivial | exact ((Bb 4 (by simp)).2.1.mp t).resolve_right (by decide))),
+      satAx_swap (satAx_mono ((ax_clip _ _ cx1 cx0 cxQ hq (satAx_swap hs.2)).2 hO)
+        (fun t => by first | trivial | exact ((Bb 2 (by simp)).2.1.mp t).resolve_right (by decide))
+        (fun t => by first | trivial | exact ((Bb 1 (by simp)).2.1.mp t).resolve_right (by decide)))⟩
+
+private theorem vdec0 (cx0 cy0 cx1 cy1 cxQ cyQ : Cls) (bit : Nat) (kx : Conv cxQ cx0 cx1) (ky : Conv cyQ cy0 cy1)
+    (hf : StepFacts bit cx0 cy0 cx1 cy1 cxQ cyQ) : f cxQ cx1 + f cyQ cy1 < f cx0 cx1 + f cy0 cy1 := by
+  rcases hf with ⟨_, rfl, hE, hO⟩ | ⟨_, rfl, hE, hO⟩ | ⟨_, rfl, hE, hO⟩ | ⟨_, rfl, hE, hO⟩
+  · have := f_dec cy0 cy1 (Or.inl ⟨hE, hO⟩); have := f_mono cxQ cx0 cx1 kx.1 kx.2; omega
+  · have := f_dec cy0 cy1 (Or.inr ⟨hE, hO⟩); have := f_mono cxQ cx0 cx1 kx.1 kx.2; omega
+  · have := f_dec cx0 cx1 (Or.inl ⟨hE, hO⟩); have := f_mono cyQ cy0 cy1 ky.1 ky.2; omega
+  · have := f_dec cx0 cx1 (Or.inr ⟨hE, hO⟩); have := f_mono cyQ cy0 cy1 ky.1 ky.2; omega
+
+private theorem vdec1 (cx0 cy0 cx1 cy1 cxQ cyQ : Cls) (bit : Nat) (kx : Conv cxQ cx0 cx1) (ky : Conv cyQ cy0 cy1)
+    (hf : StepFacts bit cx1 cy1 cx0 cy0 cxQ cyQ) : f cx0 cxQ + f cy0 cyQ < f cx0 cx1 + f cy0 cy1 := by
+  have sx : Conv cxQ cx1 cx0 := ⟨fun h => (kx.1 h).symm, fun h => (kx.2 h).symm⟩
+  have sy : Conv cyQ cy1 cy0 := ⟨fun h => (ky.1 h).symm, fun h => (ky.2 h).symm⟩
+  have := vdec0 cx1 cy1 cx0 cy0 cxQ cyQ bit sx sy hf
+  rw [f_comm cx0 cxQ, f_comm cy0 cyQ, f_comm cx0 cx1, f_comm cy0 cy1]
+  exact this
+
+private theorem V_le_four (w : Win) (x0 y0 x1 y1 : Rat) : V w x0 y0 x1 y1 ≤ 4 := by
+  have a := f_le_two (clsOf x0 w.xmin w.xmax) (clsOf x1 w.xmin w.xmax)
+  have b := f_le_two (clsOf y0 w.ymin w.ymax) (clsOf y1 w.ymin w.ymax)
+  simp only [V]; omega
 
 private theorem lerp_lerp (p0 p1 : Pt) (t0 t1 s : Rat) :
     (lerp p0 p1 t0).x + s * ((lerp p0 p1 t1).x - (lerp p0 p1 t0).x) = (lerp p0 p1 (t0 + s * (t1 - t0))).x ∧
     (lerp p0 p1 t0).y + s * ((lerp p0 p1 t1).y - (lerp p0 p1 t0).y) = (lerp p0 p1 (t0 + s * (t1 - t0))).y := by
   simp only [lerp]; constructor <;> ring
 
+private def Inv (w : Win) (x0 y0 x1 y1 : Rat) (d0 d1 : Nat) : Prop :=
+  d0 < 16 ∧ d1 < 16 ∧
+  Sat (d0 ||| d1) (clsOf x0 w.xmin w.xmax) (clsOf y0 w.ymin w.ymax) (clsOf x1 w.xmin w.xmax) (clsOf y1 w.ymin w.ymax)
+
+/-- the loop for a proper window, started anywhere on the segment with the invariant: termination within the number of violated
+window constraints, accepted end points inside the window and on the segment -/
+private theorem cs_master (w : Win) (hx : w.xmin ≤ w.xmax) (hy : w.ymin ≤ w.ymax) (p0 p1 : Pt) (fuel : Nat) :
+    ∀ (t0 t1 x y : Rat) (d0 d1 : Nat), 0 ≤ t0 → t0 ≤ 1 → 0 ≤ t1 → t1 ≤ 1 →
+      Inv w (lerp p0 p1 t0).x (lerp p0 p1 t0).y (lerp p0 p1 t1).x (lerp p0 p1 t1).y d0 d1 →
+      (V w (lerp p0 p1 t0).x (lerp p0 p1 t0).y (lerp p0 p1 t1).x (lerp p0 p1 t1).y < fuel →
+        csLoop w fuel (lerp p0 p1 t0).x (lerp p0 p1 t0).y (lerp p0 p1 t1).x (lerp p0 p1 t1).y x y d0 d1 ≠ .fuel) ∧
+      (∀ q0 q1, csLoop w fuel (lerp p0 p1 t0).x (lerp p0 p1 t0).y (lerp p0 p1 t1).x (lerp p0 p1 t1).y x y d0 d1
+          = .accept q0 q1 →
+        w.contains q0 ∧ w.contains q1 ∧
+        ∃ u0 u1 : Rat, 0 ≤ u0 ∧ u0 ≤ 1 ∧ 0 ≤ u1 ∧ u1 ≤ 1 ∧ q0 = lerp p0 p1 u0 ∧ q1 = lerp p0 p1 u1) := by
+  induction fuel with
+  | zero =>
+    intro t0 t1 x y d0 d1 _ _ _ _ _
+    exact ⟨fun h => by omega, fun q0 q1 h => by simp [csLoop] at h⟩
+  | succ n ih =>
+    intro t0 t1 x y d0 d1 a0 a1 b0 b1 hinv
+    obtain ⟨hd0, hd1, hsat⟩ := hinv
+    have hno := sat_noop d0 d1 hd0 hd1 _ _ _ _ hsat
+    simp only [csLoop, encode_eq, hno.1, hno.2]
+    simp only [← encode_eq]
+    split
+    · rename_i hacc
+      refine ⟨fun _ => by simp, fun q0 q1 h => ?_⟩
+      simp only [CsResult.accept.injEq] at h
+      simp only [PolygonKernels.csAccept, Bool.not_eq_true', decide_eq_false_iff_not, ne_eq, not_not,
+        Nat.or_eq_zero_iff] at hacc
+      obtain ⟨rfl, rfl⟩ := h
+      exact ⟨(encode_zero_iff w _).mp hacc.1, (encode_zero_iff w _).mp hacc.2, t0, t1, a0, a1, b0, b1, rfl, rfl⟩
+    · rename_i hacc
+      split
+      · exact ⟨fun _ => by simp, fun q0 q1 h => by simp at h⟩
+      · rename_i hrej
+        obtain ⟨s, s0, s1, ex, ey, kx, ky, f0, f1⟩ :=
+          cs_step w hx hy _ _ _ _ x y (by simpa using hacc) (by simpa using hrej)
+        have hl := lerp_lerp p0 p1 t0 t1 s
+        have c0 : 0 ≤ t0 + s * (t1 - t0) := convex_ge t0 t1 s 0 s0 s1 a0 b0
+        have c1 : t0 + s * (t1 - t0) ≤ 1 := convex_le t0 t1 s 1 s0 s1 a1 b1
+        simp only [hl.1, hl.2] at ex ey kx ky f0 f1
+        rw [ex, ey]
+        split
+        · rename_i hp
+          have hf := f0 hp
+          have hs' := sat_step0 d0 d1 hd0 hd1 _ _ _ _ _ _ _ hsat kx ky hf
+          have hv := vdec0 _ _ _ _ _ _ _ kx ky hf
+          have := ih (t0 + s * (t1 - t0)) t1 (lerp p0 p1 (t0 + s * (t1 - t0))).x (lerp p0 p1 (t0 + s * (t1 - t0))).y
+            (PolygonKernels.csDone d0 _) d1 c0 c1 b0 b1 ⟨hs'.1, hd1, hs'.2⟩
+          exact ⟨fun hV => this.1 (by simp only [V] at hV ⊢; omega), this.2⟩
+        · rename_i hp
+          have hf := f1 hp
+          have hs' := sat_step1 d0 d1 hd0 hd1 _ _ _ _ _ _ _ hsat kx ky hf
+          have hv := vdec1 _ _ _ _ _ _ _ kx ky hf
+          have := ih t0 (t0 + s * (t1 - t0)) (lerp p0 p1 (t0 + s * (t1 - t0))).x (lerp p0 p1 (t0 + s * (t1 - t0))).y
+            d0 (PolygonKernels.csDone d1 _) a0 a1 c0 c1 ⟨hd0, hs'.1, hs'.2⟩
+          exact ⟨fun hV => this.1 (by simp only [V] at hV ⊢; omega), this.2⟩
+
+private theorem cs_master_start (w : Win) (hx : w.xmin ≤ w.xmax) (hy : w.ymin ≤ w.ymax) (p0 p1 : Pt) (fuel : Nat) :
+    (V w p0.x p0.y p1.x p1.y < fuel → csClipLine w fuel p0 p1 ≠ .fuel) ∧
+    (∀ q0 q1, csClipLine w fuel p0 p1 = .accept q0 q1 → w.contains q0 ∧ w.contains q1 ∧
+      ∃ u0 u1 : Rat, 0 ≤ u0 ∧ u0 ≤ 1 ∧ 0 ≤ u1 ∧ u1 ≤ 1 ∧ q0 = lerp p0 p1 u0 ∧ q1 = lerp p0 p1 u1) := by
+  have e0 : p0 = lerp p0 p1 0 := by simp [lerp]
+  have e1 : p1 = lerp p0 p1 1 := by simp [lerp]
+  have := cs_master w hx hy p0 p1 fuel 0 1 p0.x p0.y 0 0 (le_refl _) (by norm_num) (by norm_num) (le_refl _)
+    ⟨by norm_num, by norm_num, by simp [Sat, SatAx]⟩
+  rw [← e0, ← e1] at this
+  exact this
+
+/-- for a proper window (`x_min ≤ x_max`, `y_min ≤ y_max`) four clipping steps are enough in exact arithmetic: fuel 5 is never
+exhausted (and 4 can be, see the `#guard` below) -/
+theorem cs_terminates_proper_window (w : Win) (hx : w.xmin ≤ w.xmax) (hy : w.ymin ≤ w.ymax) (p0 p1 : Pt) :
+    csClipLine w 5 p0 p1 ≠ .fuel :=
+  (cs_master_start w hx hy p0 p1 5).1 (by have := V_le_four w p0.x p0.y p1.x p1.y; omega)
+
+/-- `cs_sound`, accept part: for a proper window the returned end points lie inside the window (the masked outcode bits are
+never raised again in exact arithmetic, so an accept means both real outcodes are 0) -/
+theorem cs_accept_inside (w : Win) (hx : w.xmin ≤ w.xmax) (hy : w.ymin ≤ w.ymax) (fuel : Nat) (p0 p1 q0 q1 : Pt)
+    (h : csClipLine w fuel p0 p1 = .accept q0 q1) : w.contains q0 ∧ w.contains q1 :=
+  let r := (cs_master_start w hx hy p0 p1 fuel).2 q0 q1 h
+  ⟨r.1, r.2.1⟩
+
 /-- `cs_sound`, second part: the returned end points are points `p0 + t (p1 - p0)`, `0 ≤ t ≤ 1`, of the input segment -/
 theorem cs_accept_on_segment (w : Win) (hx : w.xmin ≤ w.xmax) (hy : w.ymin ≤ w.ymax) (fuel : Nat) (p0 p1 q0 q1 : Pt)
     (h : csClipLine w fuel p0 p1 = .accept q0 q1) :
-    ∃ t0 t1 : Rat, 0 ≤ t0 ∧ t0 ≤ 1 ∧ 0 ≤ t1 ∧ t1 ≤ 1 ∧ q0 = lerp p0 p1 t0 ∧ q1 = lerp p0 p1 t1 := by
-  have aux : ∀ fuel (t0 t1 x y : Rat), 0 ≤ t0 → t0 ≤ 1 → 0 ≤ t1 → t1 ≤ 1 →
-      csLoop w fuel (lerp p0 p1 t0).x (lerp p0 p1 t0).y (lerp p0 p1 t1).x (lerp p0 p1 t1).y x y = .accept q0 q1 →
-      ∃ t0 t1 : Rat, 0 ≤ t0 ∧ t0 ≤ 1 ∧ 0 ≤ t1 ∧ t1 ≤ 1 ∧ q0 = lerp p0 p1 t0 ∧ q1 = lerp p0 p1 t1 := by
-    intro fuel
-    induction fuel with
-    | zero => intro _ _ _ _ _ _ _ _ h; simp [csLoop] at h
-    | succ n ih =>
-      intro t0 t1 x y a0 a1 b0 b1 h
-      simp only [csLoop] at h
-      split at h
-      · simp only [CsResult.accept.injEq] at h
-        exact ⟨t0, t1, a0, a1, b0, b1, h.1.symm, h.2.symm⟩
-      · rename_i hacc
-        split at h
-        · simp at h
-        · rename_i hrej
-          obtain ⟨s, s0, s1, ex, ey, _, _⟩ := cs_step w hx hy _ _ _ _ x y (by simpa using hacc) (by simpa using hrej)
-          have hl := lerp_lerp p0 p1 t0 t1 s
-          have c0 : 0 ≤ t0 + s * (t1 - t0) := convex_ge t0 t1 s 0 s0 s1 a0 b0
-          have c1 : t0 + s * (t1 - t0) ≤ 1 := convex_le t0 t1 s 1 s0 s1 a1 b1
-          rw [ex, ey, hl.1, hl.2] at h
-          split at h
-          · exact ih _ _ _ _ c0 c1 b0 b1 h
-          · exact ih _ _ _ _ a0 a1 c0 c1 h
-  have e0 : p0 = lerp p0 p1 0 := by simp [lerp]
-  have e1 : p1 = lerp p0 p1 1 := by simp [lerp]
-  unfold csClipLine at h
-  have := aux fuel 0 1 p0.x p0.y (le_refl _) (by norm_num) (by norm_num) (le_refl _)
-  rw [← e0, ← e1] at this
-  exact this h
+    ∃ t0 t1 : Rat, 0 ≤ t0 ∧ t0 ≤ 1 ∧ 0 ≤ t1 ∧ t1 ≤ 1 ∧ q0 = lerp p0 p1 t0 ∧ q1 = lerp p0 p1 t1 :=
+  ((cs_master_start w hx hy p0 p1 fuel).2 q0 q1 h).2.2
 
 private theorem clsOf_hi_gt {a lo hi : Rat} (h : clsOf a lo hi = .hi) : a > hi := by
   unfold clsOf at h; split_ifs at h with h1 h2; exact h2
@@ -1526,6 +1733,30 @@ theorem lineLine_sound (virtual : Bool) (tol : Rat) (htol : 0 ≤ tol) (s1 s2 c1
       · simp at h
 
 
+/-! ## statements of C19 that are NOT proved (kept visible; covered by correspondence and the exact oracle only)
+
+```
+-- completion (two-ears theorem and adequacy of `is_ear`): every simple polygon is triangulated completely
+-- theorem earcut_completes (exterior : List Pt) (hsimple : SimplePolygon exterior) :
+--     ∃ fuel o, earcut fuel exterior [] = .ok o false ∧ o.complete
+-- reason: needs the Jordan-curve style two-ears argument for the ear test as coded (bounding box + point_in_triangle +
+-- reflex test).
+
+-- non-overlap: the open triangles of a complete run on a simple polygon are pairwise disjoint and lie inside it
+-- theorem earcut_no_overlap ...          -- reason: needs the geometric meaning of `isEarBlocked`, not only the area algebra
+
+-- Sutherland-Hodgman exactness: shoelace area of `clipPolygon clip tol poly` = area of (poly ∩ convex clip)
+-- theorem sh_exact_area ...              -- reason: containment is proved (`clipPolygon_inside`), equality of the point sets is not
+
+-- cs_reject_sound at full strength: `csClipLine w fuel p0 p1 = .reject → ∀ t ∈ [0,1], ¬ w.contains (lerp p0 p1 t)`
+-- reason: needs the loop invariant "every discarded piece lies outside"; proved for the first iteration (`…_partial`).
+-- cs_complete: an accepted result is exactly the intersection of the segment with the window: same invariant.
+
+-- hull_convex / hull_contains_all for the final list (junction turn, closing turn, all input points left of every edge)
+-- reason: needs the lexicographic order produced by `sort()`; proved: `lower_hull_left_turns`, `hull_upper_left_turns_partial`.
+```
+-/
+
 /-! ## non-vacuity: the hypotheses of the theorems are met by ordinary inputs, the bounds are tight -/
 
 private def square : List Node := linkedList [⟨0, 0⟩, ⟨4, 0⟩, ⟨4, 4⟩, ⟨0, 4⟩] 0 0 true
@@ -1541,8 +1772,8 @@ private def outBool (o : Out) : Bool := o.left.all (fun r => decide (r.length < 
 -- a clockwise input is turned counter-clockwise by `linked_list` (`linkedList_area`)
 #guard signedArea (linkedList [⟨0, 0⟩, ⟨0, 4⟩, ⟨4, 4⟩, ⟨4, 0⟩] 0 0 true) = -32
 #guard signedArea (linkedList [⟨0, 0⟩, ⟨4, 0⟩, ⟨4, 4⟩, ⟨0, 4⟩] 0 0 false) = 32
--- the model copies the index quirk of `linked_list` (known finding C19-F4): a reversed ring is numbered start+1 .. start+n
-#guard (linkedList [⟨0, 0⟩, ⟨0, 4⟩, ⟨4, 4⟩, ⟨4, 0⟩] 0 0 true).map (·.i) = [1, 4, 3, 2]
+-- `linked_list` numbers a reversed ring start .. start+n-1 like a ring that keeps its order (after fix 774525a2f)
+#guard (linkedList [⟨0, 0⟩, ⟨0, 4⟩, ⟨4, 4⟩, ⟨4, 0⟩] 0 0 true).map (·.i) = [0, 3, 2, 1]
 -- a self-touching ring on which `cure_local_intersections` fires: the `cured` term of `earcutLinked_area` is not vacuous
 private def twisted : List Node := linkedList [⟨1, 1⟩, ⟨3, 4⟩, ⟨3, 2⟩, ⟨4, 1⟩, ⟨3, 4⟩, ⟨4, 0⟩] 0 0 true
 #guard (earcutLinked 2000 twisted 0 0).cured.length = 1
@@ -1558,7 +1789,7 @@ example : (0 : Rat) ≤ PolygonKernels.tolerance := by simp only [PolygonKernels
 private def win : Win := ⟨0, 2, 0, 2⟩
 example : win.xmin ≤ win.xmax ∧ win.ymin ≤ win.ymax := by simp only [win]; norm_num
 #guard csClipLine win 5 ⟨-2, -1⟩ ⟨4, 3⟩ = .accept ⟨0, 1 / 3⟩ ⟨2, 5 / 3⟩
-#guard csClipLine win 4 ⟨-2, -1⟩ ⟨4, 3⟩ = .fuel
+#guard csClipLine win 4 ⟨-2, -1⟩ ⟨4, 3⟩ = .fuel   -- four clipping steps are needed here
 #guard csClipLine win 5 ⟨-5, 0⟩ ⟨1, 10⟩ = .reject
 #guard PolygonKernels.csReject (win.encode 3 0) (win.encode 5 7) = true
 -- convex hull of points with collinear and interior points
